@@ -296,6 +296,9 @@ pub fn ilv_oracle() -> Oracle {
                 }
             }
         }
+        for f in accounting_violations(&run.obs_end) {
+            out.push(Finding::new("accounting", "upsert:accounting-broken", f));
+        }
         // an upsert acknowledged as accepted is not silently lost: with no later delete of the key by anybody,
         // the probe read after quiescence returns the latest accepted value
         for k in [1u64] {
@@ -347,6 +350,8 @@ fn ilv_programs() -> Vec<Program> {
     // TTL requests of one client while another client / the worker touches the same entry
     v.push(mk("upsert(ttl 500ms) || upsert(v)", vec![put_ttl(1, 30, 5000)], vec![vec![ups(false, None, Some(500), false)], vec![ups(true, None, None, false)]], false));
     v.push(mk("upsert(remove ttl,w) || upsert(v);upsert(v)", vec![put_ttl(1, 30, 5000)], vec![vec![ups(false, Some(30), None, true)], vec![ups(true, None, None, false), ups(true, None, None, false)]], false));
+    // two upserts of an absent key in flight at once behave like two puts: one is refused, nothing is charged twice
+    v.push(mk("upsert(v,ttl 1s);upsert(v,ttl 5s) unawaited on an absent key", vec![], vec![vec![ups(true, Some(30), Some(1000), false), ups(true, Some(30), Some(5000), false)]], false));
     v.push(mk("put_ttl(1h) unawaited;upsert(ttl 10s)", vec![], vec![vec![Op::Put { k: 1, w: Some(30), ttl_ms: Some(3_600_000) }, ups(true, Some(30), Some(10_000), false)]], false));
     v.push(mk("upsert(v) || get;get", vec![put(1, 30)], vec![vec![ups(true, None, None, false), get(1)], vec![get(1), get(1)]], false));
     v
